@@ -5,7 +5,7 @@ methods) -- never on the tests the code happens to make -- and the effect every 
 grouped by the property whose clause they are a necessary condition of; the checks of C01 / C02 / C05 pull their group.
 """
 from . import build, irf, fold, oblig
-from .oblig import Ob, Call, ICall, Var, FieldLoad, LocalLoad, RET, CALLDOM, ALL, E
+from .oblig import Ob, Call, ICall, Var, FieldLoad, LocalLoad, RET, CALLDOM, ALL, E, NOCALL
 from .build import AnalysisBroken
 
 S = 'src/ssl/ssl_engine.c'
@@ -148,6 +148,19 @@ def progress_obligations(rule='engine-progress'):
            rule=rule, noinline=NI + ('sendpld_ack', 'sendpld_buf', 'br_ssl_engine_has_pld_to_send'),
            extra_hyps=[(_fl(off, 'hbuf_out'), ('pin', NONNULL)), (_fl(off, 'saved_hbuf_out'), ('pin', NONNULL))]),
     ]
+    # ---- the handshake / closure processor is woken when a record has been sent completely and it may have something to do:
+    # always for handshake / alert / CCS records, and for application-data records whenever the application-data flag is not 1
+    # (0: closing after the peer's close_notify; 2: closing, waiting for room to send ours) - otherwise the engine is left open with nothing on offer
+    cvr = build.const_values(['BR_SSL_APPLICATION_DATA', 'BR_SSL_HANDSHAKE'])
+    JH = CALLDOM('jump_handshake', desc='jump_handshake on every path')
+    wake = [(cvr['BR_SSL_APPLICATION_DATA'], 0, True), (cvr['BR_SSL_APPLICATION_DATA'], 2, True), (cvr['BR_SSL_HANDSHAKE'], 1, True),
+            (cvr['BR_SSL_APPLICATION_DATA'], 1, False)]
+    for rt, ad, want in wake:
+        obs.append(Ob(S, 'br_ssl_engine_sendrec_ack', _fl(off, 'application_data'), ('pin', ad),
+                      JH if want else NOCALL('jump_handshake'), None,
+                      'a completely sent record of type %d with application_data == %d: the handshake processor %s' % (rt, ad, 'must be resumed' if want else 'is not resumed'),
+                      rule=rule, noinline=NI + ('jump_handshake', 'has_rec_tosend', 'sendrec_ack'),
+                      extra_hyps=[(_fl(off, 'record_type_out'), ('pin', rt)), (Call('has_rec_tosend'), ('pin', 0)), (Var('len', 'param'), ('assume', 'ne', 0))]))
     return obs
 
 
